@@ -55,6 +55,15 @@ CLAIMED = {
             'transfer started, window ranges and negotiation, and that infeasible transfers end in an abort for the requester.',
             'Trusted: harness decoder and capability model; limits are taken from the wire; I-Am knowledge counts as of the start of a transfer.',
             'DESIGN.md section 3 (C12)'),
+    'C14': ('exploration',
+            'deterministic simulation of the real scheduler under both real loop drivers (run_once stepped; run() with shimmed asyncore and in-memory trigger), reference-scheduler monitor',
+            'Every history (enumerated short op sequences over 2-3 tasks with colliding times, every subset of raising members in deferred batches and same-instant '
+            'task groups, the recurring interval x offset x epoch grid, and seeded histories of up to 200 ops with task bodies that install/suspend/defer, raising '
+            'callbacks, loop stalls and clock steps) is executed by the real TaskManager under core.run_once and under core.run; a monitor replays the log of every '
+            'API call and callback against a reference scheduler: order by (due, installation), never early, once per installation, nothing after suspend, '
+            're-install moves, recurring slots within 2 us, deferred exactly once in submission order, nothing due or queued left behind when the loop goes idle.',
+            'Trusted: the monitor; 2 us slot tolerance; bounded enumeration (length 3-4) shorter than the property text; suspend of a recurring task from inside its own callback is not generated (the scheduler re-installs it afterwards, which the statement allows as a re-install).',
+            'DESIGN.md section 3 (C14)'),
 }
 
 PLANNED = {k: 'check not built yet in this revision (deterministic-simulation check planned, DESIGN.md section 3); not claimed until it exists'
